@@ -114,7 +114,16 @@ func (c *Ctx) judge(k *Case, o *sched.Outcome, w g.WarriorData, err error, pan s
 	}
 }
 
+// maxForFactor: inputs whose FOR counts may multiply to more than this are
+// outside the property's quantifier ("FOR counts multiply to at most a fixed
+// bound") and are not judged by the step budget of their seed.
+const maxForFactor = 64
+
 func (c *Ctx) runDefault(src string, cfg g.SimulatorConfig, budget int64, note string) *sched.Outcome {
+	if strings.HasPrefix(note, "seed") && ForFactor(src) > maxForFactor {
+		c.Rep.Count("c05:mutants-skipped-for-counts-beyond-the-fixed-bound")
+		return &sched.Outcome{MainDone: true}
+	}
 	k := &Case{Cfg: cfgArr(cfg), Src: src, Mode: "sync", Budget: budget, Note: note}
 	c.Rep.States++
 	o, w, err, pan := c.execute(k)
@@ -223,6 +232,24 @@ func (c *Ctx) RunInst(tier string) {
 	rec(nil, false)
 	rep.Bound = fmt.Sprintf("instrumented build, default schedule, step budget 1e6 ticks: every string of <=%d lexemes over a 24-lexeme alphabet (the last slot rotating over %d special byte sequences: NUL, ^Z, 0xFF, =, &, !, CR-LF, comment, |, >, ==, a truncated UTF-8 sequence); lengths <%d under three configurations", L, len(Specials), L)
 
+	if thorough {
+		sub := []string{"a", "dat", "equ", "for", "rof", "0", "+", "(", ",", ";assert", "\n", "="}
+		var rec6 func(cur []string)
+		rec6 = func(cur []string) {
+			if len(cur) == 6 {
+				if c.mine() && !c.expired() {
+					c.runDefault(Join(cur), cfg94, budget, "6 structural lexemes")
+				}
+				return
+			}
+			for _, l := range sub {
+				rec6(append(cur, l))
+			}
+		}
+		rec6(nil)
+		rep.Bound += "; every string of exactly 6 lexemes over a 12-lexeme structural sub-alphabet (a dat equ for rof 0 + ( , ;assert newline =)"
+	}
+
 	// (A2) every string of <=2 lexemes (specials included) after a closed FOR
 	// block, inside one, and after an ordinary instruction line
 	prefixes := []string{"for 0\nrof\n", "i for 1\ndat i\nrof\n", "i for 2\ndat i\n", "dat 0\n", "x equ 1\n"}
@@ -308,6 +335,8 @@ func (c *Ctx) RunInst(tier string) {
 		"i for 2\ndat i\n",
 		"i for x\ndat i\nrof\n",
 		"a i for 1\nmov a, i\nrof\njmp a\n",
+		"i for 0\ndat i\nrof\n",
+		"i for 1\nrof\n=\n",
 	}
 	for i, src := range forInputs {
 		if c.Sh.Mine(i + 6) {
@@ -315,7 +344,7 @@ func (c *Ctx) RunInst(tier string) {
 			c.exploreCase(&Case{Cfg: cfgArr(cfg94), Src: src, Mode: "fine", Budget: budget, Note: "schedules at every function entry and loop iteration"}, fb, execBudget)
 		}
 	}
-	rep.Bound += fmt.Sprintf("; 8 FOR inputs (success, zero count, error in the count, error in the body, nested, unterminated, undefined count, labelled): every schedule of consumer and producer goroutines with preemptions at synchronisation points and at every function entry / loop iteration, map orders included; per input the largest preemption bound (<=%d / <=%d) whose execution count fits a budget of %d executions, reported in the counters", sb, fb, execBudget)
+	rep.Bound += fmt.Sprintf("; 10 FOR inputs (success, zero count, error in the count, error in the body, nested, unterminated, undefined count, labelled, a pass that emits nothing, a lexer error after the block): every schedule of consumer and producer goroutines with preemptions at synchronisation points and at every function entry / loop iteration, map orders included; per input the largest preemption bound (<=%d / <=%d) whose execution count fits a budget of %d executions, reported in the counters", sb, fb, execBudget)
 
 	// (E) scaling family: the step count stays under a linear budget
 	if c.Sh.I == c.Sh.N-1 {
